@@ -621,6 +621,38 @@ def tupleNonPositional (env : Env) : Nat → Ty → Ty → Bool
         | none => false
     | _, _ => false
 
+/-- the same test, with the entries of a map set aside when asked: a Rust map decodes `vec record { 0 : K; 1 : V }`
+through its own accessor, which pairs key and value by id (a missing optional component is fine there); only the
+components of such an entry are looked into -/
+def tupleNonPositionalX (env : Env) (exemptMapEntries : Bool) : Nat → Ty → Ty → Bool
+  | 0, _, _ => false
+  | fuel + 1, w, e =>
+    match Sub.traceFull env w, Sub.traceFull env e with
+    | some (.opt w'), some (.opt e') => tupleNonPositionalX env exemptMapEntries fuel w' e'
+    | some w', some (.opt e') => tupleNonPositionalX env exemptMapEntries fuel w' e'
+    | some (.vec w'), some (.vec e') =>
+      (match exemptMapEntries, Sub.traceFull env w', Sub.traceFull env e' with
+       | true, some (.record wfs), some (.record efs) =>
+         if efs.toList.map (·.1.getId) = [0, 1] then
+           efs.toList.any fun p => match Sub.lookupF wfs p.1.getId with
+             | some wt => tupleNonPositionalX env exemptMapEntries fuel wt p.2
+             | none => false
+         else tupleNonPositionalX env exemptMapEntries fuel w' e'
+       | _, _, _ => tupleNonPositionalX env exemptMapEntries fuel w' e')
+    | some (.record wfs), some (.record efs) =>
+      let eids := efs.toList.map (·.1.getId)
+      let wids := wfs.toList.map (·.1.getId)
+      let isTuple := eids ≠ [] ∧ eids = List.range eids.length
+      (isTuple ∧ wids.take eids.length ≠ (List.range eids.length).take wids.length) ||
+        efs.toList.any fun p => match Sub.lookupF wfs p.1.getId with
+          | some wt => tupleNonPositionalX env exemptMapEntries fuel wt p.2
+          | none => false
+    | some (.variant wfs), some (.variant efs) =>
+      efs.toList.any fun p => match Sub.lookupF wfs p.1.getId with
+        | some wt => tupleNonPositionalX env exemptMapEntries fuel wt p.2
+        | none => false
+    | _, _ => false
+
 /-- decode a message at its own types (`IDLArgs::from_bytes`) -/
 def decodeSelf (bs : Bytes) (specMu : Bool := true) (specRefs : Bool := true) : Outcome (List Val) :=
   match parseHeader bs with
